@@ -376,15 +376,17 @@ def _lemmas(ent):
     empty_in = z3.Empty(z3.SeqSort(ent['in_sort']))
     empty_out = z3.Empty(z3.SeqSort(ent['out_sort']))
 
-    def stmt_snoc(G, x):
-        cx = z3.substitute(ent['c'], (ent['ph_e'], xs))
-        mx = z3.substitute(ent['m'], (ent['ph_e'], xs))
-        return G(z3.Concat(x, z3.Unit(xs)), *phs) == z3.Concat(G(x, *phs), z3.If(cx, z3.Unit(mx), empty_out))
+    def stmt_snoc(G, x, cf, mf):
+        return G(z3.Concat(x, z3.Unit(xs)), *phs) == z3.Concat(G(x, *phs), z3.If(cf(xs), z3.Unit(mf(xs)), empty_out))
 
-    def unfold(G, x):
-        c_h = z3.substitute(ent['c'], (ent['ph_e'], x[0]))
-        m_h = z3.substitute(ent['m'], (ent['ph_e'], x[0]))
-        return G(x, *phs) == z3.If(z3.Length(x) == 0, empty_out, z3.Concat(z3.If(c_h, z3.Unit(m_h), empty_out), G(z3.Extract(x, 1, z3.Length(x) - 1), *phs)))
+    def unfold(G, x, cf, mf):
+        return G(x, *phs) == z3.If(z3.Length(x) == 0, empty_out, z3.Concat(z3.If(cf(x[0]), z3.Unit(mf(x[0])), empty_out), G(z3.Extract(x, 1, z3.Length(x) - 1), *phs)))
+
+    def c_of(t):
+        return z3.substitute(ent['c'], (ent['ph_e'], t))
+
+    def m_of(t):
+        return z3.substitute(ent['m'], (ent['ph_e'], t))
 
     if SNOC_LEMMA:
         sx = z3.Concat(S, z3.Unit(xs))
@@ -394,10 +396,21 @@ def _lemmas(ent):
             z3.Implies(z3.Length(S) > 0, z3.And(sx[0] == S[0], tsx == z3.Concat(tail, z3.Unit(xs)))),
             z3.Implies(z3.Length(S) == 0, z3.And(S == empty_in, sx[0] == xs, tsx == empty_in)),
         )
+        # the statement does not depend on what the condition and the element expression are: they are
+        # uninterpreted functions of the element (and the parameters) in the obligation
+        psorts = [p.sort() for p in phs]
         G = z3.Function(f'comp{ent["idx"]}_u', *[F.domain(k) for k in range(F.arity())], F.range())
+        Cu = z3.Function(f'comp{ent["idx"]}_c', ent['in_sort'], *psorts, z3.BoolSort())
+        Mu = z3.Function(f'comp{ent["idx"]}_m', ent['in_sort'], *psorts, ent['out_sort'])
+        cu = lambda t: Cu(t, *phs)  # noqa: E731
+        mu = lambda t: Mu(t, *phs)  # noqa: E731
         out.append(('snoc-seq', [], seq_facts))
-        out.append(('snoc', [z3.Implies(z3.Length(S) > 0, stmt_snoc(G, tail)), seq_facts, unfold(G, sx), unfold(G, S), unfold(G, empty_in)], stmt_snoc(G, S)))
-        ent['snoc_stmt'] = lambda x: stmt_snoc(F, x)
+        out.append(('snoc', [z3.Implies(z3.Length(S) > 0, stmt_snoc(G, tail, cu, mu)), seq_facts, unfold(G, sx, cu, mu), unfold(G, S, cu, mu), unfold(G, empty_in, cu, mu)], stmt_snoc(G, S, cu, mu)))
+        ent['snoc_stmt'] = lambda x: stmt_snoc(F, x, c_of, m_of)
+        if z3.is_true(z3.simplify(ent['c'])):
+            # head: the first element of a map over a non-empty sequence (one unfolding of the definition)
+            out.append(('head', [unfold(G, S, cu, mu), cu(S[0])], z3.Implies(z3.Length(S) > 0, G(S, *phs)[0] == mu(S[0]))))
+            ent['head_stmt'] = z3.Implies(z3.Length(S) > 0, F(S, *phs)[0] == m_of(S[0]))
     if ent['identity']:
         # the quantified statement is proved for an arbitrary index __i; the induction
         # hypothesis (for the tail) is instantiated at __i and __i - 1
@@ -412,6 +425,9 @@ def _instances(ent, s, actuals, res):
     out = []
     for nm, ih, goal in _lemmas(ent):
         if nm == 'snoc-seq':
+            continue
+        if nm == 'head':
+            out.append(z3.substitute(ent['head_stmt'], *sub))
             continue
         if nm == 'snoc':
             # instantiated (for F itself) where the argument has the shape init ++ [x] (the result of list.append)
